@@ -20,7 +20,7 @@
 #include <occa/internal/core/memoryPool.hpp>
 #include <occa/internal/utils/verif.hpp>
 #include <occa/internal/modes.hpp>
-#include "histbfs.hpp"
+#include "histbfs_fork2.hpp"
 
 // A fresh Serial device per System.  occa::device("{mode:'Serial'}") spends ~0.5 ms layering the
 // settings into the device properties; that layering is done once per process (by a normal public
@@ -51,10 +51,11 @@ static const int MAX_MEMS = 3, MAX_RES = 2;
 
 static std::map<std::string, long> &coverMap() { static std::map<std::string, long> m; return m; }
 static void cov(const std::string &k, long n = 1) { coverMap()[k] += n; }
+static long &driverPid() { static long p = 0; return p; }
 static void dumpCover() {
   const char *d = getenv("VP_COVER_DIR");
   if (!d) return;
-  std::string path = std::string(d) + "/cov." + std::to_string((long) getpid());
+  std::string path = std::string(d) + "/cov." + std::to_string(driverPid() ? driverPid() : (long) getpid());
   std::string out;
   for (auto &kv : coverMap()) out += kv.first + " " + std::to_string(kv.second) + "\n";
   int fd = open(path.c_str(), O_WRONLY | O_CREAT | O_APPEND, 0644);
@@ -301,6 +302,7 @@ struct AllocSys {
     mObs = std::max(mObs, modelAfter);
     mTrans = std::max(std::max(mTrans, transient), modelAfter);
     if (ctx.judging) {
+      cov("judged-transitions");
       cov("op:" + tag);
       if (threw) cov("threw:" + tag);
       if (transient > modelAfter) cov("realloc-with-live-reservations");
@@ -366,4 +368,12 @@ struct AllocSys {
   }
 };
 
-int main(int argc, char **argv) { return hb::main<AllocSys>(argc, argv); }
+int main(int argc, char **argv) {
+  // crash-contained driver: every state expansion runs in a forked child, which appends its situation
+  // counters to the driver's file before it exits
+  driverPid() = (long) getpid();
+  coverMap();
+  { occa::device warm = freshSerialDevice(); }   // library start-up and the property template happen once, before the forks
+  hbf2::childExitHook() = dumpCover;
+  return hbf2::main<AllocSys>(argc, argv, 120);
+}
